@@ -308,6 +308,12 @@ def call_method(it, obj, name, args, kwargs):
             return _native(getattr(obj, name), *args, **kwargs)
         if isinstance(obj, str):
             return _str_method_symargs(it, obj, name, args, kwargs)
+        if isinstance(obj, set) and name in ('add', 'discard', 'remove') and len(args) == 1 and isinstance(args[0], Obj):
+            # a stub object is a set member by identity (distinct stubs never alias)
+            try:
+                return getattr(obj, name)(args[0])
+            except KeyError as err:
+                raise PyRaise(ExcVal(KeyError, err.args))
         if isinstance(obj, set) and name == 'add':
             raise OutsideSubset("adding a symbolic value to a python set")
     raise OutsideSubset("method %s.%s" % (type(obj).__name__, name))
